@@ -21,26 +21,81 @@ def _ones_scale(cfg, state):
     return jnp.ones_like(state.u.prototype_output_scale_calibrated())
 
 
-def ekf_spec(cfg, state, dt, damp, scale):
-    """Returns dict with m_pred, P_pred, H, b, S, K, m_post, P_post (K = ghost witness)."""
+def ekf_spec(cfg, state, dt, damp, scale, lin_at=None):
+    """Returns dict with m_pred, P_pred, H, b, S, K, m_post, P_post (K = ghost witness).
+
+    ``scale`` multiplies the process noise; ``lin_at`` optionally fixes the linearisation (H, b).
+    """
     import probdiffeq.backend.linalg as LA
 
     L = cfg.L
     cond = state.prior.transition(dt=dt, output_scale=scale)
-    m, P = state.u.mean_flat, cov(L, state.u)
+    filt = ivp.filtering_marginal(state)
+    m, P = filt.mean_flat, cov(L, filt)
     Phi, m_pred, P_pred = ivp.predict_spec(cfg, m, P, cond)
-    H, b = ivp.linearise_spec(cfg, m_pred, state.t + dt)
+    H, b = lin_at if lin_at is not None else ivp.linearise_spec(cfg, m_pred, state.t + dt)
     R = ivp.damp_cov(cfg, H, damp)
     S = L.mm(L.mm(H, P_pred), L.T(H)) + R
-    # ghost witness for the gain: the backward conditional of the same conditioning problem
-    pred = cond.marginalise(state.u)
+    # ghost witnesses: the (memoised) contract calls of the same conditioning problems
+    out = {}
+    if cfg.strategy == "filter":
+        pred = cond.marginalise(filt)
+    else:
+        pred, back = cond.revert(filt, solve_triu=LA.solve_triu)
+        out["back"] = back
     lin = ivp.lin_cond(cfg, H, b, damp)
     observed, bwd = lin.revert(pred, solve_triu=LA.solve_triu)
     K, _, _ = law(L, bwd)
     resid = L.mv(H, m_pred) + b
     m_post = m_pred - L.mv(K, resid)
     P_post = P_pred - L.mm(L.mm(K, S), L.T(K))
-    return dict(cond=cond, m_pred=m_pred, P_pred=P_pred, H=H, b=b, S=S, K=K, resid=resid, m_post=m_post, P_post=P_post, observed=observed, pred=pred, lin=lin)
+    out.update(cond=cond, Phi=Phi, m=m, P=P, m_pred=m_pred, P_pred=P_pred, H=H, b=b, S=S, K=K, resid=resid, m_post=m_post, P_post=P_post, observed=observed, pred=pred, lin=lin)
+    return out
+
+
+def whitened_rms_spec(cfg, observed, name):
+    """Clauses tying ``term`` (ghost, memoised contract call) to the definition of the whitened RMS."""
+    import probdiffeq.backend.linalg as LA
+
+    L = cfg.L
+    zeros = jnp.zeros_like(observed.mean_flat)
+    term = observed.residual_whitened_rms_flat(zeros)
+    cl = [ge(f"{name}_nonneg", term)]
+    if L is G.BlockL:
+        n = observed.mean_flat.shape[1]
+        for j in range(observed.mean_flat.shape[0]):
+            w = LA.solve_tril(observed.cholesky_flat[j], zeros[j] - observed.mean_flat[j])
+            cl.append(eq(f"{name}_is_whitened_rms_dim{j}", term[j] * term[j] * n, jnp.sum(w * w)))
+    else:
+        sign = 1.0 if L is G.DenseL else -1.0
+        w = LA.solve_tril(observed.cholesky_flat, sign * (zeros - observed.mean_flat))
+        cl.append(eq(f"{name}_is_whitened_rms", term * term * observed.mean_flat.size, jnp.sum(w * w)))
+    return term, cl
+
+
+def smoother_clauses(cfg, res, state, sp):
+    """Backward conditional of the step == RTS smoothing gain (fixed-interval) / merged (fixed-point)."""
+    L = cfg.L
+    G_, xi, Xi = law(L, res.solution_full.conditional)
+    Gs, xis, Xis = sp["Phi"], None, None
+    # RTS quantities, inverse-free: G P^- = P Phi^T ; xi = m - G m^- ; Xi = P - G P^- G^T
+    back = sp["back"]
+    Gb, xib, Xib = law(L, back)
+    cl = [
+        eq("rts_gain_equation", L.mm(Gb, sp["P_pred"]), L.mm(sp["P"], L.T(sp["Phi"]))),
+        eq("rts_offset", xib, sp["m"] - L.mv(Gb, sp["m_pred"])),
+        eq("rts_cov", Xib, sp["P"] - L.mm(L.mm(Gb, sp["P_pred"]), L.T(Gb))),
+    ]
+    if cfg.strategy == "fixedinterval":
+        cl += [eq("backward_linop", G_, Gb), eq("backward_offset", xi, xib), eq("backward_cov", Xi, Xib)]
+    else:
+        A0, b0, Q0 = law(L, state.solution_full.conditional)
+        cl += [
+            eq("backward_linop_merged", G_, L.mm(A0, Gb)),
+            eq("backward_offset_merged", xi, L.mv(A0, xib) + b0),
+            eq("backward_cov_merged", Xi, L.mm(L.mm(A0, Xib), L.T(A0)) + Q0),
+        ]
+    return cl
 
 
 def _frame(res, state, dt):
@@ -58,17 +113,53 @@ def step_contract(cfg: ivp.Cfg):
 
     def ensures(res, self, state, *, dt, damp):
         cl = _frame(res, state, dt)
+        ones = _ones_scale(cfg, state)
         if cfg.calib in ("none", "mle"):
-            sp = ekf_spec(cfg, state, dt, damp, _ones_scale(cfg, state))
+            sp = ekf_spec(cfg, state, dt, damp, ones)
+        else:
+            # dynamic calibration: scale = whitened RMS of the residual of the mean-only prediction
+            cond1 = state.prior.transition(dt=dt, output_scale=ones)
+            u0 = cond1.apply_flat(state.u.mean_flat)
+            H0, b0 = ivp.linearise_spec(cfg, u0.mean_flat, state.t + dt)
+            lin0 = ivp.lin_cond(cfg, H0, b0, damp)
+            obs0 = lin0.marginalise(u0)
+            Phi1, _, Q1 = law(L, cond1)
+            S0 = L.mm(L.mm(H0, Q1), L.T(H0)) + ivp.damp_cov(cfg, H0, damp)
+            sigma, cl_sigma = whitened_rms_spec(cfg, obs0, "dynamic_scale")
+            cl += cl_sigma
             cl += [
-                eq("gain_equation", L.mm(sp["K"], sp["S"]), L.mm(sp["P_pred"], L.T(sp["H"]))),
-                eq("posterior_mean", res.u.mean_flat, sp["m_post"]),
-                eq("posterior_cov", cov(L, res.u), sp["P_post"]),
+                eq("dynamic_scale_residual", obs0.mean_flat, L.mv(H0, L.mv(Phi1, state.u.mean_flat) + L.beff(cond1)) + b0),
+                eq("dynamic_scale_innovation_cov", cov(L, obs0), S0),
+                eq("output_scale_is_dynamic_scale", res.output_scale, sigma),
             ]
-            Hc, bc, Rc = law(L, res.fun_evals)
-            cl += [eq("cached_linearisation_H", Hc, sp["H"]), eq("cached_linearisation_b", bc, sp["b"])]
+            sp = ekf_spec(cfg, state, dt, damp, sigma, lin_at=None if cfg.relin else (H0, b0))
+            _, _, Qs = law(L, sp["cond"])
+            s2 = (sigma * sigma)[..., None, None]
+            cl += [eq("process_noise_scaled", Qs, s2 * Q1)]
+        cl += [
+            eq("gain_equation", L.mm(sp["K"], sp["S"]), L.mm(sp["P_pred"], L.T(sp["H"]))),
+            eq("posterior_mean", res.u.mean_flat, sp["m_post"]),
+            eq("posterior_cov", cov(L, res.u), sp["P_post"]),
+        ]
+        Hc, bc, Rc = law(L, res.fun_evals)
+        cl += [eq("cached_linearisation_H", Hc, sp["H"]), eq("cached_linearisation_b", bc, sp["b"])]
+        if cfg.strategy != "filter":
+            cl += smoother_clauses(cfg, res, state, sp)
         if cfg.calib == "none":
             cl += [eq("output_scale_one", res.output_scale, 1.0)]
+        if cfg.calib == "mle":
+            _, running, n = state.auxiliary
+            _, running_new, n_new = res.auxiliary
+            term, cl_term = whitened_rms_spec(cfg, sp["observed"], "mle_term")
+            cl += cl_term
+            cl += [
+                eq("mle_innovation_mean", sp["observed"].mean_flat, sp["resid"]),
+                eq("mle_innovation_cov", cov(L, sp["observed"]), sp["S"]),
+                eq("mle_count", n_new, n + 1),
+                ge("mle_running_nonneg", running_new),
+                eq("mle_running_mean_of_squares", running_new * running_new * (n + 1), running * running * n + term * term),
+                eq("output_scale_unchanged", res.output_scale, state.output_scale),
+            ]
         return cl
 
     def instances(tier):
@@ -98,10 +189,12 @@ def step_contract(cfg: ivp.Cfg):
         return out
 
     mod = "probdiffeq._probdiffeq.solvers"
-    callees = [G.BY_LAYOUT[cfg.layout]["marginalise"], G.BY_LAYOUT[cfg.layout]["revert"]]
+    from . import normals as N
+
+    callees = [G.BY_LAYOUT[cfg.layout]["marginalise"], G.BY_LAYOUT[cfg.layout]["revert"], G.BY_LAYOUT[cfg.layout]["merge"], N.BY_LAYOUT[cfg.layout]["residual_whitened_rms_flat"]]
     return Contract(
         name=f"{mod}:{cls}.step[{cfg.name}]", module=mod, qualname=f"{cls}.step",
         ensures=ensures, instances=instances, callees=callees,
-        inherits=("revert#", "revert_conditional#"),
+        inherits=("revert#", "revert_conditional#", "solve_tril#", "residual_whitened_rms_flat#"),
         doc="one step == predict with the prior transition, linearise at the predicted mean, condition on zero data (textbook EKF)",
     )
